@@ -114,6 +114,27 @@ pub fn decide(d: &mut Draw) -> Outcome {
     Outcome::pass(hash_str(&text), expected_any || g.boundary, classes, text)
 }
 
+/// `VERIF_EXPOSE=<signature>`: report failures with that (listed) signature
+/// as if they were unlisted, so that the runner shrinks one and writes its
+/// replay file — this is how the reproducers under /verif/known are made.
+pub fn expose(o: Outcome) -> Outcome {
+    match (o, std::env::var("VERIF_EXPOSE").ok()) {
+        (Outcome::Fail(mut f), Some(e)) if f.signature == e => {
+            f.signature.push_str("#exposed");
+            Outcome::Fail(f)
+        }
+        (o, _) => o,
+    }
+}
+
+/// `VERIF_SHRINK=n` bounds the shrinking effort (sensitivity runs on a busy machine)
+pub fn shrink_cfg(cfg: CaseCfg) -> CaseCfg {
+    match std::env::var("VERIF_SHRINK").ok().and_then(|v| v.parse::<u32>().ok()) {
+        Some(n) => cfg.shrink_iters(n),
+        None => cfg,
+    }
+}
+
 pub fn run(ctx: &Ctx) {
     if std::env::var("C15_DUMP").is_ok() {
         // developer aid: print a few generated designs
@@ -124,8 +145,8 @@ pub fn run(ctx: &Ctx) {
         }
         std::process::exit(0);
     }
-    let n = ctx.scale(6000, 200_000);
-    ctx.run("drivers", CaseCfg::cases(n).choices(1500), decide);
+    let n = ctx.scale(4000, 100_000);
+    ctx.run("drivers", shrink_cfg(CaseCfg::cases(n).choices(1500)), |d: &mut Draw| expose(decide(d)));
     ctx.assume("paths of an always_comb are its syntactic paths (every branch combination); a process is one always_ff / always_comb / assign / instance");
     ctx.assume("an output port is read by the parent; reads are right-hand sides, conditions, case selectors and instance inputs");
     ctx.assume("open cases accepted either way: full `case` without default; unassigned-and-unread variable; read and write on disjoint arms");
